@@ -73,6 +73,9 @@ pub enum Rd {
     /// SOA identified by its MNAME (all other fields are constants)
     Soa(Dn),
     Txt(String),
+    /// an NSEC record identified by its next-name field (injections only: the honest zones of the
+    /// model are unsigned)
+    Nsec(Dn),
     /// anything the model never produces (used when mapping records coming back from hickory)
     Other(String),
 }
@@ -96,7 +99,7 @@ impl Rd {
             Rd::Cname(_) => Qt::Cname,
             Rd::Soa(_) => Qt::Soa,
             Rd::Txt(_) => Qt::Txt,
-            Rd::Other(_) => Qt::Other,
+            Rd::Nsec(_) | Rd::Other(_) => Qt::Other,
         }
     }
 }
@@ -123,7 +126,7 @@ pub fn has_marker(r: &Rr) -> bool {
     let name_marked = |n: &str| labels(n).iter().any(|l| *l == "poison");
     match &r.rd {
         Rd::A(ip) => is_poison_ip(*ip),
-        Rd::Ns(n) | Rd::Cname(n) | Rd::Soa(n) => name_marked(n),
+        Rd::Ns(n) | Rd::Cname(n) | Rd::Soa(n) | Rd::Nsec(n) => name_marked(n),
         Rd::Txt(t) => t == "poison",
         Rd::Other(_) => false,
     }
@@ -197,6 +200,9 @@ pub enum InjKind {
     VictimNsHostA { zone: u8 },
     /// upward referral: NS for the root + address
     RootNs,
+    /// a DNSSEC-typed record (NSEC) at a victim data name: what a "denial proof" of somebody
+    /// else's zone looks like
+    VictimNsec { zone: u8, label: u8 },
 }
 
 #[derive(Clone, Debug, Serialize, Deserialize)]
@@ -683,6 +689,10 @@ pub fn build_world(raw: &RawNet) -> World {
                     let Some(nsr) = w.zones[vzi].ns.first() else { continue };
                     let host = nsr.host.clone();
                     (w.zones[vzi].name.clone(), true, vec![rr(&host, Rd::A(pip))])
+                }
+                InjKind::VictimNsec { zone, label } => {
+                    let Some(owner) = pick_name(*zone, *label) else { continue };
+                    (owner.clone(), false, vec![rr(&owner, Rd::Nsec(format!("n{s}.poison.")))])
                 }
                 InjKind::RootNs => {
                     let host = format!("root{s}.poison.");
